@@ -5,8 +5,8 @@
    `for i := <init>; <cond>; i += <incr>` whose body is exactly `nexts = append(nexts, NewConst(<level args>))`
    - an unconditional append per level - and `return NewCompositeConf(CompositeConf{nexts})`.  A level that is
    skipped, filtered or replaced is outside that grammar: the translator refuses, the tie is reported broken. *)
-From Coq Require Import ZArith QArith String List.
-From PV Require Import Model.Sched Model.SchedExpr Gen.SchedGen Model.Waiter Model.WaiterProfile.
+From Coq Require Import ZArith QArith String List Lia.
+From PV Require Import Model.Sched Model.SchedExpr Gen.SchedGen Proofs.SchedQ Model.Waiter Model.WaiterProfile.
 Import ListNotations.
 Local Open Scope string_scope.
 
@@ -23,9 +23,53 @@ Lemma waiter_const_level_bridge :
   gen_const_clamp = "ops<0=>ops=0".
 Proof. repeat split; reflexivity. Qed.
 
+Local Open Scope Z_scope.
+
+(* For every positive rate (milli-rps) and duration: the number of tokens of a level is the re-read expression
+   int64(ops * (float64(duration) / 1e9)) (exact rational reading), ... *)
+Lemma waiter_const_tokens_bridge : forall sq p dur, 0 <= dur ->
+  evalQ sq (env_of [("ops", Zpos p # 1000); ("duration", inject_Z dur)]) gen_const_n
+  = inject_Z (const_tokens (Zpos p) dur).
+Proof.
+  intros sq p dur Hd.
+  cbn [evalQ env_of fold_right String.eqb Ascii.eqb Bool.eqb fst snd gen_const_n].
+  unfold qz. f_equal.
+  rewrite (Qtrunc_comp _ ((Zpos p * dur) # 1000000000000)).
+  - unfold Qtrunc, const_tokens, ns_mrps. cbn [Qnum Qden Z.leb Z.compare].
+    apply Z.quot_div_nonneg; lia.
+  - unfold Qeq, Qdiv, Qmult, Qinv, inject_Z. cbn [Qnum Qden]. lia.
+Qed.
+
+(* ... and the i-th token of the level is the re-read expression Duration(float64(i) * (1e9 / ops)) = i * period when the
+   rate has a whole number of ns between two tokens (the rates the correspondence cases use). *)
+Lemma waiter_const_at_bridge : forall sq p i, 0 <= i -> ns_mrps mod Zpos p = 0 ->
+  evalQ sq (env_of [("ops", Zpos p # 1000); ("i", inject_Z i)]) gen_const_at
+  = inject_Z (i * (ns_mrps / Zpos p)).
+Proof.
+  intros sq p i Hi Hm.
+  cbn [evalQ env_of fold_right String.eqb Ascii.eqb Bool.eqb fst snd gen_const_at].
+  unfold qz. f_equal.
+  rewrite (Qtrunc_comp _ ((i * ns_mrps) # p)).
+  - unfold Qtrunc. cbn [Qnum Qden]. rewrite Z.quot_div_nonneg by (unfold ns_mrps; lia).
+    apply Z.div_exact in Hm; [|lia]. rewrite Hm at 1.
+    rewrite Z.mul_assoc, (Z.mul_comm i), <- Z.mul_assoc, Z.mul_comm, Z.div_mul by lia. lia.
+  - unfold Qeq, Qdiv, Qmult, Qinv, inject_Z, ns_mrps. cbn [Qnum Qden]. lia.
+Qed.
+
+(* hence a level of the model is the level NewConst builds: as many tokens as the source's n, one source period apart,
+   and a PAUSE of the level's duration when n = 0 *)
+Lemma waiter_const_seg_bridge : forall sq p dur, 0 <= dur -> ns_mrps mod Zpos p = 0 ->
+  let n := Qnum (evalQ sq (env_of [("ops", Zpos p # 1000); ("duration", inject_Z dur)]) gen_const_n) in
+  let per := Qnum (evalQ sq (env_of [("ops", Zpos p # 1000); ("i", inject_Z 1)]) gen_const_at) in
+  const_seg (Zpos p) dur = if n <=? 0 then SPause dur else SConst per (Z.to_nat n) dur.
+Proof.
+  intros sq p dur Hd Hm. rewrite waiter_const_tokens_bridge by exact Hd.
+  rewrite waiter_const_at_bridge by (try exact Hm; lia).
+  cbn [Qnum inject_Z]. rewrite Z.mul_1_l. reflexivity.
+Qed.
+
 (* [const_seg] computes those two expressions (rates in milli-rps): spot values through the evaluator of the
    re-read expressions - 2.5 rps for 1 s: 2 tokens, the second at +400 ms; 0.5 rps for 1 s and 0 rps: none *)
-Local Open Scope Z_scope.
 Definition ev_n (mrps dur : Z) : Q :=
   evalQ (fun x => x) (env_of [("ops", mrps # 1000); ("duration", inject_Z dur)]) gen_const_n.
 Definition ev_at (mrps i : Z) : Q :=
